@@ -20,6 +20,18 @@ KANI = {
  "C29": ("model_checking", "4 (C29)", "validate_proof_count exact over all usize; layout length exact for counts <= 64; the public-batch parser rejects out-of-range counts (incl. usize::MAX) before layout arithmetic."),
 }
 
+MIR_NOTE = ("Trusted base: nightly rustc's MIR dump of /repo's current source is the program analysed; the environment push calls into (clock, verifier, "
+            "metadata parser, std maps/vectors/iterators, formatting) is replaced by the stubs listed in native/mirpool.py and in the evidence; pre-state "
+            "assumptions are listed in the evidence; z3. The engine is validated on every run against real ProofPool runs (csx-emit poolrun).")
+MIR_TECH = ("symbolic execution of the MIR of ProofPool::push (all basic blocks, path enumeration) into z3 (Int + Array theories), one inductive step from an arbitrary "
+            "pool state; counterexamples are shrunk to a small reachable instance, turned into a push history and replayed on the REAL ProofPool, judged by an executable spec")
+MIRPOOL = {
+ "C19": ("model_checking", "4.2 (C19/C22)", "One push from an arbitrary pool state: Ok exactly under the documented conjunction (with the pool's own window decision), rejected pushes leave maps/counts/index "
+         "unchanged, pool-state membership tests only after a successful verification, admitted pushes index exactly the proof's nullifiers; parse_metadata's own acceptance condition is a stub (outside)."),
+ "C22": ("model_checking", "4.2 (C19/C22)", "One push from an arbitrary pool state: window restart only after a full window and always after more than one, counter +1 per attempt regardless of result, "
+         "verification attempted iff earlier rules pass and counter < limit, counter charged before verifying; inductive invariant counter <= limit and ghost 'attempts since window start' == counter."),
+}
+
 CHECKS = {
  "C01": ("model_checking", "2-3", "All wire assignments of the complete built leaf circuit: 32-bit ranges, fee bound and the integer fee inequality are consequences of the constraint system (UNSAT of constraints ∧ ¬goal), vacuity-guarded."),
  "C02": ("model_checking", "2-3", "All wire assignments of the leaf circuit: nullifier/address bindings to one shared secret and the leaf's count, hash as uninterpreted sponge spec."),
@@ -30,7 +42,7 @@ CHECKS = {
  "C08": ("model_checking", "3 (C08)", "Private wrapper IR N<=3/4: conservation of value asked directly of the circuit's outputs (not of the spec transcription)."),
  "C09": ("model_checking", "3 (C09)", "Circuit output = O(x) re-proved on the IR (N<=2 quick / N<=3 thorough), two-witness dummy-content independence on the IR, and all N! slot permutations of O checked on the spec for N<=3; one recorded known finding."),
  "C10": ("model_checking", "3 (C10)", "Self-composition (two witness copies over shared inputs) on private wrapper, public wrapper, sort, less-than and digest-equality gadgets: outputs cannot differ."),
- "C11": ("model_checking", "3 (C11)", "Structural half of C11 on the full recursive circuits built by the real constructors: no witness can put a key other than the canonical child's verifier key on the wires verify_proof reads (all 68 are pinned by constant slots); that a pinned key rejects foreign proofs is plonky2's recursive-verifier soundness (assumed)."),
+ "C11": ("model_checking", "3 (C11)", "Structural half of C11 on the full recursive circuits built by the real constructors: no witness can put a key other than the canonical child's verifier key on the wires verify_proof reads (all 68 are pinned by constant slots), and every child slot of the 2-slot (quick) / up to 3-slot (thorough) circuits has its own recursive-verifier instance whose public-input sponge absorbs exactly that slot's public inputs and feeds the transcript (copy-class matching over the built circuit's PoseidonGate rows; attack replayed through the real prover); that a pinned key rejects foreign proofs is plonky2's recursive-verifier soundness (assumed)."),
  "C12": ("model_checking", "3 (C12/C13)", "Public wrapper IR for (M,N) up to (3,2) quick / (4,4) thorough: every output position equals the order-preserving forwarding spec."),
  "C13": ("model_checking", "3 (C12/C13)", "Public wrapper IR: satisfiable iff real inners agree on block hash, asset and fee (both directions); vacuity witnesses show dummies and other fields are unconstrained."),
  "C36": ("model_checking", "3 (C36)", "M private-wrapper IR copies chained into the public-wrapper IR in one solver context: end-to-end value conservation and nullifier-set statements for (M,N) in {(1,2),(2,1),(2,2)} (+(3,2),(2,3) thorough)."),
@@ -67,9 +79,21 @@ def main():
             "level_note": KANI_NOTE,
             "technique": KANI_TECH,
         })
+    for pid, (cat, ref, text) in sorted(MIRPOOL.items()):
+        checks.append({
+            "property_id": pid,
+            "quick_cmd": f"./check {pid} --tier quick",
+            "thorough_cmd": f"./check {pid} --tier thorough",
+            "evidence_file": f"/verif/evidence/{pid}.json",
+            "replay_cmd_template": "cat {path}",
+            "engine": "mir-smt",
+            "level_claimed": {"category": cat, "text": text, "design_ref": f"DESIGN.md section {ref}"},
+            "level_note": MIR_NOTE,
+            "technique": MIR_TECH,
+        })
     checks.sort(key=lambda c: c["property_id"])
     na = json.load(open("/verif/not_applicable.json"))
-    claimed = set(CHECKS) | set(KANI)
+    claimed = set(CHECKS) | set(KANI) | set(MIRPOOL)
     na = [x for x in na if x["property_id"] not in claimed]
     m = {
         "version": 1,
